@@ -3,15 +3,21 @@ from .. import core, mt_check
 
 def run_scope(prop, tier, seed, verdict, accept):
     quick = tier == "quick"
-    iters = 220 if quick else 12000
+    iters = 220 if quick else 2000
     res = mt_check.MtResult()
-    victims = {"v0": (0, 231, 232, 233, 234, 235), "v1": (0, 241, 242, 252, 253, 254, 255, 261, 262, 263, 264, 265),
-               "v2": (0, 252, 253, 254, 255, 261, 262, 263, 264, 265)}
+    # hook sites: 23x v0 scope, 24x v1 attach, 25x v2 scope, 26x spawn_future; the sites of the property at hand come first
+    # so that the quick tier (few processes) perturbs them
+    if prop == "C09":
+        victims = {"v0": (0, 231, 232, 233, 234, 235), "v1": (265, 263, 0, 264, 241, 242, 261, 262, 252, 253, 254, 255),
+                   "v2": (265, 263, 0, 264, 261, 262, 252, 253, 254, 255)}
+    else:
+        victims = {"v0": (0, 231, 232, 233, 234, 235), "v1": (0, 241, 242, 252, 253, 254, 255, 261, 262, 263, 264, 265),
+                   "v2": (0, 252, 253, 254, 255, 261, 262, 263, 264, 265)}
     for variant in ("asan20d", "tsan20d"):
         it = iters if variant.startswith("asan") else iters // 2
         a = []
         for i, mode in enumerate(("v0", "v1", "v2")):
-            n = 1 if (quick and mode == "v0") else (2 if quick else 4)
+            n = 1 if (quick and mode == "v0") else ((3 if prop == "C09" else 2) if quick else 4)
             a += [x + ["mode=" + mode, "iters=%d" % it, "maxW=%d" % (2 if quick else 3)] for x in
                   mt_check.seeds_args(seed + 10 * i, n, [], victims[mode])]
         mt_check.run_mt(prop, "scope", variant, a, verdict, res, timeout=1200, accept=accept)
